@@ -16,6 +16,12 @@ structure TuckerWF (T : Ttensor α) : Prop where
   len : T.factors.length = T.core.shape.length
   cols : ∀ d, d < T.factors.length → (T.factors.getD d []).ncols = T.core.shape.getD d 0
 
+theorem complDims_range (N : Nat) : complDims N (List.range N) = [] := by
+  unfold complDims
+  rw [List.filter_eq_nil_iff]
+  intro k hk
+  simpa using List.mem_range.1 hk
+
 theorem zip_range_eq_map {β : Type} (l : List β) (dflt : β) :
     (List.range l.length).zip l = (List.range l.length).map fun k => (k, l.getD k dflt) := by
   apply List.ext_getElem
@@ -42,7 +48,7 @@ theorem tucker_full_spec [CommSemiring α] (T : Ttensor α) (hT : TuckerWF T) (h
   set N := T.core.shape.length with hNc
   have hlen := hT.len
   set Ms : List (Dense.MatArg α) := T.factors.map fun U => ⟨U, U.length, U.ncols⟩ with hMs
-  have hMl : Ms.length = N := by simp [hMs, hlen]
+  have hMl : Ms.length = N := by rw [hMs, List.length_map, hlen]
   -- mode designation: nothing listed = every mode, matrix `d` for mode `d`
   obtain ⟨pairs, e, hs, hp⟩ := resolve_dims_P N Ms (List.range N) List.nodup_range
     (fun x hx => List.mem_range.1 hx) (by simp [hMl])
@@ -93,7 +99,9 @@ theorem tucker_full_spec [CommSemiring α] (T : Ttensor α) (hT : TuckerWF T) (h
         exact List.mem_map.2 ⟨d, List.mem_range.2 (by rw [hMl]; exact hd), rfl⟩
       have := r1 _ hmemd
       simp only [Bool.false_eq_true, if_false] at this
-      rw [(hmem _ hmemd).2] at this
+      have h2 := (hmem _ hmemd).2
+      simp only at h2
+      rw [h2] at this
       simp only [Ttensor.shape, List.getElem_map]
       have hd' : d < T.factors.length := by rw [hlen]; exact hd
       rw [List.getD_eq_getElem?_getD, List.getElem?_eq_getElem h1] at this
@@ -106,15 +114,10 @@ theorem tucker_full_spec [CommSemiring α] (T : Ttensor α) (hT : TuckerWF T) (h
   have hil : i.length = T.factors.length := by rw [hi.length_eq, hshape]; simp [Ttensor.shape]
   -- the fiber with nothing fixed is every cell of the core
   unfold Spec.ttm Ttensor.get Spec.sumOver
-  have hrem : complDims T.core.den.shape.length (List.range N) = [] := by
-    unfold complDims
-    rw [List.filter_eq_nil_iff]
-    intro k hk
-    have : (List.range N).contains k = true := List.contains_iff_mem.2 (by simpa [Dense.den, hNc] using hk)
-    simp [this]
+  have hrem : complDims T.core.den.shape.length (List.range N) = [] := complDims_range N
   simp only [hrem]
   have hf : Spec.fiber T.core.den.shape [] (gather i []) = allSubs T.core.shape := by
-    unfold Spec.fiber
+    show (allSubs T.core.shape).filter _ = _
     rw [List.filter_eq_self]; intro k _; rfl
   rw [hf]
   apply sum_congr
